@@ -76,6 +76,12 @@ func call1(fn string, a *ref.Expr) *ref.Expr {
 	return &ref.Expr{Op: "call", Name: fn, Args: []*ref.Expr{a}}
 }
 
+// recursionParam: the explicit param that makes a generated recursion end (the counter of a counted
+// recursion, the next element of a list walk).
+func recursionParam(cl *ref.Call, key string) bool {
+	return key == "depthN" || key == "node" && strings.Contains(cl.Target, ".walk")
+}
+
 type mutant struct {
 	what string
 	prog *ref.Program
@@ -168,7 +174,7 @@ func mutants(base *ref.Program, limit int) []mutant {
 					add(fmt.Sprintf("param %s replaced by data=\"all\" plus a same-named let (locals are not forwarded)", c.Call.Params[pi].Key), func(p *ref.Program) bool {
 						_, b, _ := nthBlock(p, bi)
 						cl := (*b)[ci].Call
-						if cl.Data != nil || cl.Params[pi].Key == "depthN" {
+						if cl.Data != nil || recursionParam(cl, cl.Params[pi].Key) {
 							return false // (the recursion counter must keep decreasing)
 						}
 						k := cl.Params[pi].Key
@@ -181,6 +187,9 @@ func mutants(base *ref.Program, limit int) []mutant {
 					add(fmt.Sprintf("call drops param %s", c.Call.Params[pi].Key), func(p *ref.Program) bool {
 						_, b, _ := nthBlock(p, bi)
 						cl := (*b)[ci].Call
+						if recursionParam(cl, cl.Params[pi].Key) && cl.DataAll {
+							return false // (valid, but the recursion would never end)
+						}
 						cl.Params = append(cl.Params[:pi:pi], cl.Params[pi+1:]...)
 						return true
 					})
@@ -376,6 +385,8 @@ func genC07(t *rapid.T) gen.ProgCase {
 }
 
 func TestC07(t *testing.T) {
+	recompileCheck = true
+	defer func() { recompileCheck = false }()
 	c07rec = newRecorder("C07x")
 	defer c07rec.flush()
 	runPropCrashy(t, "C07", genC07, checkC07)
